@@ -56,7 +56,7 @@ func init() { props["C16"] = c16{} }
 // records
 
 type c16Val struct {
-	kind byte // 's' string, 'i' int, 'b' bool, 'f' float64 (shown + trunc), 'x' unsupported
+	kind byte // 's' string, 'i' int, 'b' bool, 'f' float64 (shown + trunc), 'm' map[string]int (s = canonical text k:v,k:v), 'x' unsupported
 	s    string
 	n    int
 	b    bool
@@ -74,7 +74,7 @@ func (v c16Val) shown() string {
 			return "true"
 		}
 		return "false"
-	case 'f':
+	case 'f', 'm':
 		return v.s
 	}
 	return "?"
@@ -93,8 +93,43 @@ func (v c16Val) tok() string {
 		return "b0"
 	case 'f':
 		return "f" + strconv.Itoa(v.n) + "~" + hx([]byte(v.s))
+	case 'm':
+		return "m" + hx([]byte(v.s))
 	}
 	return "x"
+}
+
+// canonical text of a statistics map: k:v,k:v sorted by key
+func c16MapText(m map[string]int) string {
+	keys := make([]string, 0, len(m))
+	for k := range m {
+		keys = append(keys, k)
+	}
+	sort.Strings(keys)
+	p := make([]string, len(keys))
+	for i, k := range keys {
+		p[i] = k + ":" + strconv.Itoa(m[k])
+	}
+	return strings.Join(p, ",")
+}
+
+func c16ParseMap(t string) (map[string]int, bool) {
+	m := map[string]int{}
+	if t == "" {
+		return m, true
+	}
+	for _, kv := range strings.Split(t, ",") {
+		q := strings.Split(kv, ":")
+		if len(q) != 2 || q[0] == "" || !c16CanonInt(q[1]) {
+			return nil, false
+		}
+		n, _ := strconv.Atoi(q[1])
+		if _, dup := m[q[0]]; dup {
+			return nil, false
+		}
+		m[q[0]] = n
+	}
+	return m, c16MapText(m) == t
 }
 
 func (v c16Val) goValue() interface{} {
@@ -107,6 +142,9 @@ func (v c16Val) goValue() interface{} {
 		return v.b
 	case 'f':
 		return v.f
+	case 'm':
+		m, _ := c16ParseMap(v.s)
+		return m
 	}
 	return nil
 }
@@ -124,6 +162,10 @@ func c16FromGo(x interface{}) c16Val {
 			return c16Val{kind: 'x'}
 		}
 		return c16Val{kind: 'f', s: fmt.Sprint(t), n: int(t), f: t}
+	case map[string]int:
+		return c16Val{kind: 'm', s: c16MapText(t)}
+	case obiseq.StatsOnValues:
+		return c16Val{kind: 'm', s: c16MapText(t)}
 	}
 	return c16Val{kind: 'x'}
 }
@@ -158,6 +200,13 @@ func c16ParseVal(s string) (c16Val, bool) {
 			return c16Val{}, false
 		}
 		return c16Val{kind: 'f', s: sh, n: n, f: f}, true
+	case 'm':
+		t, ok := c16Ascii(s[1:])
+		if !ok {
+			return c16Val{}, false
+		}
+		_, ok = c16ParseMap(t)
+		return c16Val{kind: 'm', s: t}, ok
 	}
 	return c16Val{}, false
 }
@@ -333,6 +382,7 @@ type c16Spec struct {
 	tpath, trank, sci          bool     // --taxonomic-path, --taxonomic-rank, --scientific-name
 	aho                        *[]string // --aho-corasick: the patterns of the file
 	pat, patname               string   // --pattern, --pattern-name
+	lca, lcaerr                string   // --add-lca-in, --lca-error (text)
 	nosd                       bool  // grepio: no --save-discarded (the FilterOn path)
 	lay, perm                  []int // pipeline cases: sizes of the input batches, order in which they are pushed
 }
@@ -477,6 +527,18 @@ func c16ParseSpec(ws []string) (*c16Spec, bool) {
 					sp.patname = l[0]
 				}
 			}
+		case "lca":
+			var l []string
+			ok = str(&l, true) && sp.lca == ""
+			if ok {
+				for _, c := range []byte(l[0]) {
+					ok = ok && ((c >= 'a' && c <= 'z') || c == '_')
+				}
+				sp.lca = l[0]
+			}
+		case "lcaerr":
+			ok = sp.lcaerr == "" && regexp.MustCompile(`^0(\.[0-9]{1,3})?$`).MatchString(x)
+			sp.lcaerr = x
 		case "aho":
 			pats := []string{}
 			for _, h := range strings.Split(x, ",") {
@@ -591,8 +653,14 @@ func c16TmpDir() string {
 var c16Parent = map[int]int{1: 1, 2: 1, 10: 2, 11: 10, 12: 11, 13: 11, 20: 2, 21: 20, 30: 1, 31: 30}
 var c16Rank = map[int]string{1: "no rank", 2: "kingdom", 10: "family", 11: "genus", 12: "species", 13: "species", 20: "family", 21: "species", 30: "order", 31: "species"}
 
+func (sp *c16Spec) annotOnly() bool {
+	return sp.clear || sp.length || sp.setid != "" || len(sp.del)+len(sp.keep)+len(sp.ren)+len(sp.tag) > 0 || sp.cut != nil ||
+		len(sp.atrank) > 0 || sp.tpath || sp.trank || sp.sci || sp.aho != nil || sp.pat != "" || sp.patname != "" ||
+		sp.lca != "" || sp.lcaerr != ""
+}
+
 func (sp *c16Spec) needsTax() bool {
-	return len(sp.r)+len(sp.i)+len(sp.rank)+len(sp.atrank) > 0 || sp.tpath || sp.trank || sp.sci
+	return len(sp.r)+len(sp.i)+len(sp.rank)+len(sp.atrank) > 0 || sp.tpath || sp.trank || sp.sci || sp.lca != ""
 }
 
 // the argv the spec stands for
@@ -724,6 +792,12 @@ func (sp *c16Spec) argv() []string {
 	}
 	if sp.sci {
 		flag("", "scientific-name")
+	}
+	if sp.lca != "" {
+		opt("", "add-lca-in", sp.lca)
+	}
+	if sp.lcaerr != "" {
+		opt("", "lca-error", sp.lcaerr)
 	}
 	if sp.aho != nil {
 		c16Serial++
@@ -1294,6 +1368,33 @@ func c16RefAnnot(sp *c16Spec, r0 c16Rec, t *c16Table, renOrder, tagOrder [][2]st
 			r.attrs[kf[1]] = c16Val{kind: 's', s: x}
 		}
 	}
+	if sp.lca != "" {
+		v := t.lca(sp.lcaerr, r)
+		if v == "P" {
+			return "panic"
+		}
+		q := strings.Split(v, ",")
+		// documented naming: <slot>_taxid (the suffix is not repeated), and the same stem with name / error;
+		// without stem: scientific_name and lca_error
+		stem := sp.lca + "_"
+		if strings.HasSuffix(sp.lca, "taxid") {
+			stem = strings.TrimSuffix(sp.lca, "taxid")
+		}
+		nameSlot, errSlot := stem+"name", stem+"error"
+		if stem == "" {
+			nameSlot, errSlot = "scientific_name", "lca_error"
+		}
+		if q[0] != "-" {
+			st, _ := c16ParseVal(q[0])
+			r.attrs["merged_taxid"] = st
+		}
+		n, _ := strconv.Atoi(q[1])
+		name, _ := c16Ascii(q[2])
+		ev, _ := c16ParseVal(q[3])
+		r.attrs[stem+"taxid"] = c16Val{kind: 'i', n: n}
+		r.attrs[nameSlot] = c16Val{kind: 's', s: name}
+		r.attrs[errSlot] = ev
+	}
 	if sp.length {
 		r.attrs["seq_length"] = c16Val{kind: 'i', n: len(r.seq)}
 	}
@@ -1361,6 +1462,8 @@ func c16RefAnnot(sp *c16Spec, r0 c16Rec, t *c16Table, renOrder, tagOrder [][2]st
 		}
 		if st, en, nerr, ok := t.bestMatch(sp.pat, e, sp.indel, true, r); ok {
 			set(st, en, nerr, fmt.Sprintf("%d..%d", st+1, en), r.seq[st:en])
+		} else if sp.fwd {
+			// --only-forward: the reverse strand is not searched
 		} else if st, en, nerr, ok := t.bestMatch(sp.pat, e, sp.indel, false, r); ok {
 			m := make([]byte, 0, en-st)
 			for i := en - 1; i >= st; i-- {
@@ -1429,6 +1532,44 @@ func (t *c16Table) taxString(what string, r c16Rec) string {
 	})
 	if strings.HasPrefix(out, "v") {
 		res = hx([]byte(out[1:]))
+	}
+	t.put(k, res)
+	return res
+}
+
+// verdict of Taxonomy.LCA through AddLCAWorker: "P" = panic, else <stat tok or ->,<taxid>,<hex name>,<error tok>
+func (t *c16Table) lca(errText string, r c16Rec) string {
+	et := errText
+	if et == "" {
+		et = "-"
+	}
+	k := "lca:" + et + ":" + r.show()
+	if v, ok := t.m[k]; ok {
+		return v
+	}
+	res := "P"
+	s := r.bio()
+	lcaErr := 0.0
+	if errText != "" {
+		lcaErr, _ = strconv.ParseFloat(errText, 64)
+	}
+	before, had := r.attrs["merged_taxid"]
+	var w obiseq.SeqWorker
+	out := guardT(2*time.Second, func() string {
+		w = obitax.AddLCAWorker(c16Taxonomy(), "zz", 1-lcaErr)
+		w(s)
+		return "ok"
+	})
+	if out == "ok" {
+		a := c16FromBio(s)
+		ti, n, e := a.attrs["zz_taxid"], a.attrs["zz_name"], a.attrs["zz_error"]
+		st := "-"
+		if after, ok := a.attrs["merged_taxid"]; ok && (!had || after.tok() != before.tok()) {
+			st = after.tok()
+		}
+		if ti.kind == 'i' && n.kind == 's' && (e.kind == 'f' || e.kind == 'i') && !strings.Contains(st, "x") {
+			res = st + "," + strconv.Itoa(ti.n) + "," + hx([]byte(n.s)) + "," + e.tok()
+		}
 	}
 	t.put(k, res)
 	return res
@@ -1844,8 +1985,7 @@ func (c16) Exec(c string) (string, []Fail) {
 			return "bad-op", nil
 		}
 		sp.rawToks = head[1:]
-		annotOnly := sp.clear || sp.length || sp.setid != "" || len(sp.del)+len(sp.keep)+len(sp.ren)+len(sp.tag) > 0 || sp.cut != nil ||
-			len(sp.atrank) > 0 || sp.tpath || sp.trank || sp.sci || sp.aho != nil || sp.pat != "" || sp.patname != ""
+		annotOnly := sp.annotOnly()
 		if (head[0] == "grep" || head[0] == "annot") && (sp.nosd || sp.lay != nil || sp.perm != nil) {
 			return "bad-op", nil
 		}
